@@ -303,6 +303,22 @@ class History:
         if r < 0.62 and self.compiled:
             q, text, i = R.choice(self.compiled)
             doc = R.choice(self.docs)
+            if R.random() < 0.25:
+                # abandon an iterator half-way (find_one, or a few next() calls): later applications must not notice
+                try:
+                    if R.random() < 0.5:
+                        q.find_one(doc)
+                    else:
+                        it = iter(q.finditer(doc))
+                        for _ in range(R.randint(1, 3)):
+                            next(it)
+                        del it
+                except StopIteration:
+                    pass
+                except Exception:  # noqa: BLE001
+                    pass
+                self.rec.feat("abandoned-iterator")
+                return
             m = R.choice(["find", "finditer", "apply"])
             self.observe("compiled." + m, i, text, lambda: getattr(q, m)(doc), doc, compiled_reuse=True)
             return
